@@ -32,7 +32,7 @@ def explain(path):
                 for so in op[3]:
                     out.append("      s.%s" % {"call": "__call__(%s)", "invert": "invert(%s)", "domain": "domain()%s",
                                                 "nice": "nice(%s)", "ticks": "ticks(%s) + tickFormat + positions",
-                                                "copy": "copy()%s", "nice_iv": "nice(d3_time[%r], skip)", "clamp": "clamp(%s)", "ticks_iv": "ticks(d3_time[%r], skip)"}[so[0]]
+                                                "copy": "copy()%s", "nice_iv": "nice(d3_time[%r], skip)", "clamp": "clamp(%s)", "ticks_iv": "ticks(d3_time[%r], skip)", "deepcopy": "<replaced by copy.deepcopy(s)>%s"}[so[0]]
                                % (so[1] if len(so) > 1 else ""))
             elif op[0] == "timeline":
                 out.append("%2d: Timeline%s(%d items, options=%s).export()" % (i, op[1].upper(), len(op[2]), _opts(op[3])))
